@@ -196,6 +196,8 @@ def _contraction_twin(cell, w1, rec1, L, W, actions, harness, seed, cid):
 
 
 def run_cells(cells: List[Dict[str, Any]], workers: Optional[int] = None, chunk: int = 4) -> List[Dict[str, Any]]:
+    if os.environ.get("VERIF_P_ONLY") == "1":      # development aid: level-P obligations only (never used by a registered command)
+        return []
     workers = workers or min(16, os.cpu_count() or 4)
     if not cells:
         return []
